@@ -174,7 +174,13 @@ func MakeContent(r *rand.Rand, o ContentOpts) Content {
 			src := c.Blocks[r.Intn(len(c.Blocks))]
 			sc, _, err := refcar.SplitCid(src.Cid)
 			if err == nil {
-				switch r.Intn(4) {
+				switch r.Intn(5) {
+				case 4: // near-collision: same code and width, one late digest byte differs (synthetic only)
+					if o.Synthetic && len(sc.Digest) > 1 && sc.MhCode != 0 {
+						nd := append([]byte{}, sc.Digest...)
+						nd[len(nd)-1-r.Intn(len(nd)/2)] ^= byte(1 + r.Intn(255))
+						c.Blocks = append(c.Blocks, refcar.Block{Cid: MakeCidLike(sc, nd), Data: Bytes(r, 7)})
+					}
 				case 0: // exact duplicate
 					c.Blocks = append(c.Blocks, src)
 				case 1: // same multihash under another codec
@@ -225,3 +231,11 @@ func U64(v uint64) []byte { return binary.LittleEndian.AppendUint64(nil, v) }
 
 // RandT is the PRNG type used by the generators.
 type RandT = rand.Rand
+
+// MakeCidLike builds a CID with the version/codec/hash code of c and another digest.
+func MakeCidLike(c refcar.Cid, digest []byte) []byte {
+	if c.Version == 0 {
+		return refcar.MakeCidV1(0x70, 0x12, digest)
+	}
+	return refcar.MakeCidV1(c.Codec, c.MhCode, digest)
+}
